@@ -61,22 +61,26 @@ Inductive front_result :=
 | FPanic (s : stage_id)
 | FOutOfFuel (s : stage_id).
 
-Definition validate_doc (VS : Vld.Ast.schema) (F : Vld.Ast.features) (d : Syn.Ast.document) : Vld.Ast.outcome :=
-  Vld.ValidatorModel.validate_model Vld.ValidatorModel.repaired Vld.ValidatorModel.id_order VS F (vld_of_syn d).
+(** [pi]: the order in which Go's [range] visits the entries of the validator's maps (any
+    permutation; the theorems quantify over it, the check runs [id_order]) *)
+Definition validate_doc (pi : Vld.ValidatorModel.order) (VS : Vld.Ast.schema) (F : Vld.Ast.features) (d : Syn.Ast.document) : Vld.Ast.outcome :=
+  Vld.ValidatorModel.validate_model Vld.ValidatorModel.repaired pi VS F (vld_of_syn d).
 
-Definition parse_and_validate_bytes (VS : Vld.Ast.schema) (F : Vld.Ast.features) (bs : bytes) : front_result :=
+Definition parse_and_validate_order (pi : Vld.ValidatorModel.order) (VS : Vld.Ast.schema) (F : Vld.Ast.features) (bs : bytes) : front_result :=
   match Syn.FrontEnd.parse_document_bytes bs with
   | Syn.ParserModel.OOF => FOutOfFuel StParse
   | Syn.ParserModel.Out _ (e :: es) => FSyntax e es
   | Syn.ParserModel.Out None [] => FPanic StParse                 (* "nil, no error": excluded by C06 *)
   | Syn.ParserModel.Out (Some d) [] =>
-      match validate_doc VS F d with
+      match validate_doc pi VS F d with
       | Vld.Ast.Panic _ => FPanic StValidate
       | Vld.Ast.OutOfFuel => FOutOfFuel StValidate
       | Vld.Ast.Done (e :: es) => FInvalid e es
       | Vld.Ast.Done [] => FAccepted d
       end
   end.
+
+Definition parse_and_validate_bytes := parse_and_validate_order Vld.ValidatorModel.id_order.
 
 (** ** the back half: executor.ExecuteRequest on the accepted document *)
 Definition of_run (r : Exe.ExecModel.run_result) : presult :=
@@ -102,15 +106,17 @@ Definition execute_doc (ES : Exe.ExecData.schema) (d : Syn.Ast.document) (opname
   end.
 
 (** ** graphql.Execute(&Request{Query: bs, Schema, Features, OperationName, VariableValues, InitialValue}) *)
-Definition pipeline_model (VS : Vld.Ast.schema) (F : Vld.Ast.features) (ES : Exe.ExecData.schema)
+Definition pipeline_order (pi : Vld.ValidatorModel.order) (VS : Vld.Ast.schema) (F : Vld.Ast.features) (ES : Exe.ExecData.schema)
            (bs : bytes) (opname : Exe.ExecData.name) (VE : option Exe.ExecData.env) (W : Exe.ExecData.outcome) : presult :=
-  match parse_and_validate_bytes VS F bs with
+  match parse_and_validate_order pi VS F bs with
   | FSyntax e es => PSyntax e es
   | FInvalid e es => PInvalid e es
   | FAccepted d => execute_doc ES d opname VE W
   | FPanic s => PPanic s
   | FOutOfFuel s => POutOfFuel s
   end.
+
+Definition pipeline_model := pipeline_order Vld.ValidatorModel.id_order.
 
 (** ** the response, as far as C03 speaks about it (PipelineModel.response) *)
 Definition is_response (r : presult) : bool :=
